@@ -20,12 +20,14 @@ ENTRIES = {
  'C01': ['.:NetworkEngine.MatchAll', '.:NetworkEngine.AddRule', '.:NewNetworkEngine', 'lookup:ShortcutsTable.TryAdd',
          'lookup:ShortcutsTable.MatchAll', 'lookup:DomainsTable.TryAdd', 'lookup:DomainsTable.MatchAll',
          'lookup:SeqScanTable.TryAdd', 'lookup:SeqScanTable.MatchAll', 'filterutil:FastHash', 'filterutil:FastHashBetween',
-         'lookup:getRuleShortcuts', 'lookup:isAnyURLShortcut', 'lookup:getSubdomains', 'lookup:shortcutLength'],
+         'lookup:getRuleShortcuts', 'lookup:isAnyURLShortcut', 'lookup:getSubdomains', 'lookup:shortcutLength',
+         'filterlist:NewRuleScanner', 'filterlist:RuleScanner.readNextLine', 'filterlist:RuleStorageScanner.Rule'],
  'C02': ['.:NewDNSEngine', '.:DNSEngine.Match', '.:DNSEngine.MatchRequest', '.:DNSEngine.matchLookupTable', '.:DNSEngine.addRule',
          '.:DNSEngine.getRequestFromPool', 'rules:NetworkRule.IsHostLevelNetworkRule', 'rules:GetDNSBasicRule', 'rules:HostRule.Match',
          'rules:OptionHostLevelRulesOnly', '.:NetworkEngine.MatchAll', '.:NetworkEngine.AddRule', 'lookup:ShortcutsTable.TryAdd',
          'lookup:ShortcutsTable.MatchAll', 'lookup:SeqScanTable.TryAdd', 'lookup:SeqScanTable.MatchAll', 'lookup:DomainsTable.TryAdd',
-         'lookup:getRuleShortcuts', 'filterutil:FastHash', 'filterutil:FastHashBetween'],
+         'lookup:getRuleShortcuts', 'filterutil:FastHash', 'filterutil:FastHashBetween', 'filterutil:IsDomainName', 'rules:NewHostRule',
+         'rules:NewRule'],
  'C03': ['rules:patternToRegexp', 'rules:NetworkRule.preparePattern', 'rules:NetworkRule.matchPattern', 'rules:NetworkRule.shouldMatchHostname',
          'rules:specialCharReplacer', 'rules:RegexSeparator', 'rules:RegexStartURL', 'rules:RegexAnyCharacter', 'rules:NewNetworkRule'],
  'C04': ['rules:NetworkRule.Match', 'rules:NetworkRule.matchRequestDomain', 'rules:NetworkRule.matchSourceDomain', 'rules:NetworkRule.matchDNSType',
@@ -59,7 +61,8 @@ ENTRIES = {
          '.:DNSResult.DNSRewrites', '.:DNSResult.DNSRewritesAll', '.:Engine.MatchRequest', '.:Engine.GetCosmeticResult'],
  'C14': ['.:NetworkEngine.MatchAll', '.:DNSEngine.MatchRequest', '.:DNSEngine.getRequestFromPool', 'filterlist:RuleStorage.RetrieveRule',
          'filterlist:FileRuleList.RetrieveRule', 'filterlist:StringRuleList.RetrieveRule', 'rules:NetworkRule.preparePattern',
-         'lookup:ShortcutsTable.MatchAll', 'lookup:DomainsTable.MatchAll', 'lookup:SeqScanTable.MatchAll', 'lookup:ruleIn'],
+         'lookup:ShortcutsTable.MatchAll', 'lookup:DomainsTable.MatchAll', 'lookup:SeqScanTable.MatchAll', 'lookup:ruleIn',
+         '.:Engine.MatchRequest', '.:Engine.GetCosmeticResult', '.:DNSEngine.matchLookupTable', '.:DNSEngine.Match'],
  'C15': ['.:NewCosmeticEngine', '.:CosmeticEngine.Match', '.:CosmeticEngine.addRule', '.:cosmeticLookupTable.addRule', '.:cosmeticLookupTable.findByHostname',
          '.:cosmeticLookupTable.appendMatching', '.:cosmeticLookupTable.isWhitelisted', '.:StylesResult.append', 'rules:CosmeticRule.Match',
          'rules:NewCosmeticRule', 'rules:CosmeticRule.IsGeneric'],
@@ -89,9 +92,16 @@ def bare(key):
     return key.split(':', 1)[1].split('.')[-1]
 
 
+def recv(key):
+    n = key.split(':', 1)[1]
+    return n.split('.')[0] if '.' in n else ''
+
+
 def closure(fp, entries):
     """entries + what they refer to by name: two steps inside the package, one step into other packages (from an entry
-    only).  Deliberately shallow: a deep closure anchors every property to the whole code base."""
+    only).  Deliberately shallow and conservative about METHOD names (go/ast has no types here): a name resolves to a
+    plain function or value of that name, to a method of the SAME receiver type, or to a method of another type only
+    when no other method of the package carries that name."""
     byname = {}
     for k in fp:
         byname.setdefault(bare(k), []).append(k)
@@ -107,11 +117,14 @@ def closure(fp, entries):
             if r in STOP:
                 continue
             cands = byname.get(r, [])
+            same_pkg_methods = [c for c in cands if c.split(':', 1)[0] == pkg and recv(c)]
             for c in cands:
                 cp = c.split(':', 1)[0]
-                same = cp == pkg
-                cross = d == 0 and r[:1].isupper() and len(cands) <= 2 and cp not in ('cmd', 'examples/proxy', 'proxy')
-                if (same or cross) and (c not in depth or depth[c] > d + 1):
+                if cp == pkg:
+                    ok = (not recv(c)) or recv(c) == recv(k) or len(same_pkg_methods) == 1
+                else:
+                    ok = d == 0 and r[:1].isupper() and len(cands) == 1 and cp not in ('cmd', 'examples/proxy', 'proxy')
+                if ok and (c not in depth or depth[c] > d + 1):
                     depth[c] = d + 1
                     todo.append(c)
     return set(depth)
